@@ -27,10 +27,12 @@ import Bng.Model.AcctWire
   a queued Start can be overtaken by a Stop (D24); records queued by the recovery procedure are
   volatile again (KF-acct-recovery-volatile).
 
-  Two threads: the API thread (`pc`, advanced by `tick`) and the background processor (`ppc`, advanced by
-  `ptick`); `deq`/`retry` start a processor step whenever the processor goroutine is alive (not during the
+  Three threads: the API thread (`pc`, advanced by `tick`), the background processor (`ppc`, advanced by
+  `ptick`) and the interim goroutine (`ipc`, advanced by `itick`); `deq`/`retry` start a processor step and
+  `interim` puts an interim update in flight whenever the worker goroutines are alive (not during the
   recovery in Start(), not after Stop() has cancelled the workers), independently of the API call in
-  progress, so every interleaving of the processor's micro-steps with those of an API call is a history.
+  progress, so every interleaving of the workers' micro-steps with those of an API call is a history: in
+  particular StopSession can run to completion between an interim update's send and its acknowledgement.
   The server's answer to a request is three-valued (`Ans`): `up` = accepted and acknowledged, `down` = not
   received (the client sees an error), `lost` = accepted by the server but the client sees an error (reply
   lost or late).  `crashTorn` = a crash in the middle of the file write of a persist step (after the fix:
@@ -38,7 +40,7 @@ import Bng.Model.AcctWire
 
   Not modelled: the retry *schedule* (NextRetry/back-off: `retry` retries every record of the map, as the
   code does once they are due), the interim ticker (an `interim` op is one due session), Acct-Session-Time,
-  packet counters, queue-full logging, API calls overlapping each other or the processor.
+  packet counters, queue-full logging, API calls overlapping each other.
   Ghost fields (history variables that no transition reads) are marked as such.
   Core Lean only.
 -/
@@ -96,7 +98,8 @@ inductive Frame
   | stopSend (s : Nat)                                    -- 4
   | stopDelete (s : Nat) (acked : Bool)                   -- 5
   | stopRemove (s : Nat) (acked : Bool)                   -- 6
-  | intSend (s : Nat)                                     -- 17
+  | intSend (s ident : Nat) (i o : UInt64)                -- 17 (the session's identifiers and the counters are
+                                                          --     captured before the marker)
   | procSend (id : Nat) (rest : List Nat)                 -- 7
   | procRemove (s : Nat) (rest : List Nat)                -- 8
   | drainSend (s : Nat) (rest : List Nat)                 -- 9
@@ -110,13 +113,13 @@ inductive Frame
 
 def markerOf : Frame → Nat
   | .startSend _ => 1 | .startPersist _ => 2 | .stopPersist _ => 3 | .stopSend _ => 4
-  | .stopDelete _ _ => 5 | .stopRemove _ _ => 6 | .intSend _ => 17 | .procSend _ _ => 7
+  | .stopDelete _ _ => 5 | .stopRemove _ _ => 6 | .intSend _ _ _ _ => 17 | .procSend _ _ => 7
   | .procRemove _ _ => 8 | .drainSend _ _ => 9 | .drainRemove _ _ => 19 | .persistPending => 11
   | .recSend _ _ _ _ => 13 | .recRemove _ _ _ _ => 14 | .recLoad _ _ => 15 | .recPendRemove => 16
 
 /-- frames whose step transmits a request (and therefore consumes a server answer) -/
 def Frame.sends : Frame → Bool
-  | .startSend _ | .stopSend _ | .intSend _ | .procSend _ _ | .drainSend _ _ | .recSend _ _ _ _ => true
+  | .startSend _ | .stopSend _ | .intSend _ _ _ _ | .procSend _ _ | .drainSend _ _ | .recSend _ _ _ _ => true
   | _ => false
 
 structure Vol where
@@ -125,6 +128,7 @@ structure Vol where
   queue    : List Nat := []         -- pendingQueue channel: record ids, head first
   pc       : Option Frame := none     -- the API call in progress
   ppc      : Option Frame := none     -- the processor step in progress (procSend / procRemove frames)
+  ipc      : Option Frame := none     -- the interim update in flight (intSend frame; the interimLoop goroutine)
   deriving Repr
 
 structure Dur where
@@ -147,6 +151,7 @@ structure State where
   ctr   : AMap Nat (UInt64 × UInt64) := []   -- environment: what the CounterFetcher returns
   res   : Res := .none              -- result of the last API call
   pres  : Res := .none              -- result of the last processor step
+  ires  : Res := .none              -- result of the last interim step
   /-- ghost: what the current call processed at its transmit steps, in order -/
   ord   : List Nat := []
   /-- ghost: the records the current processor step transmitted, in order -/
@@ -216,6 +221,7 @@ def send (σ : State) (r : Rec) (ans : Ans) (viaRec : Bool) : State :=
 
 def setPc (σ : State) (pc : Option Frame) : State := { σ with vol := { σ.vol with pc := pc } }
 def setPpc (σ : State) (pc : Option Frame) : State := { σ with vol := { σ.vol with ppc := pc } }
+def setIpc (σ : State) (pc : Option Frame) : State := { σ with vol := { σ.vol with ipc := pc } }
 def noteOrd (σ : State) (x : Nat) : State := { σ with ord := σ.ord ++ [x] }
 def notePOrd (σ : State) (x : Nat) : State := { σ with pord := σ.pord ++ [x] }
 
@@ -307,19 +313,22 @@ def removeFile (σ : State) (s : Nat) : State :=
 def tickStopRemove (σ : State) (s : Nat) (acked : Bool) : State :=
   setPc (if acked then removeFile σ s else σ) none
 
-def tickIntSend (σ : State) (s : Nat) (ans : Ans) : State :=
-  match AMap.lookup σ.vol.sessions s with
-  | none => setPc σ none
-  | some x =>
-    let c := counters σ s
-    let r : Rec := { kind := .interim, sid := s, ident := x.ident, cause := 0, inOct := c.1, outOct := c.2 }
-    match ans with
-    | .up =>
-      let σ := accept σ r true
-      setPc { σ with vol := { σ.vol with
-        sessions := AMap.insert σ.vol.sessions s { x with lastIn := c.1, lastOut := c.2 } } } none
-    | .down => setPc (enqueue σ r false) none
-    | .lost => setPc (enqueue (accept σ r false) r false) none
+/-- sendInterimUpdate from its marker on: the request was built from the session object and the counters the
+    goroutine captured BEFORE the marker; it is sent whether or not the session is still registered (StopSession
+    may have completed meanwhile); the acknowledged counters are written to the session object, which matters
+    only while the session is still in the map -/
+def tickIntSend (σ : State) (s ident : Nat) (i o : UInt64) (ans : Ans) : State :=
+  let r : Rec := { kind := .interim, sid := s, ident := ident, cause := 0, inOct := i, outOct := o }
+  match ans with
+  | .up =>
+    let σ := accept σ r true
+    match AMap.lookup σ.vol.sessions s with
+    | none => setIpc σ none
+    | some x =>
+      setIpc { σ with vol := { σ.vol with
+        sessions := AMap.insert σ.vol.sessions s { x with lastIn := i, lastOut := o } } } none
+  | .down => setIpc (enqueue σ r false) none
+  | .lost => setIpc (enqueue (accept σ r false) r false) none
 
 /-- the part of processPendingRecord after a send the client saw fail -/
 def procFail (σ : State) (p : PRec) (id : Nat) (rest : List Nat) : State :=
@@ -366,9 +375,9 @@ def tickDrainRemove (σ : State) (s : Nat) (rest : List Nat) : State :=
   setPc (removeFile σ s) (some (nextDrain rest))
 
 /-- Stop() after the drain: the workers have been cancelled and are waited for (the step is blocked while a
-    processor step is in progress), then persistPendingRecords, then the process exits -/
+    processor step or an interim update is in progress), then persistPendingRecords, then the process exits -/
 def tickPersistPending (σ : State) : State :=
-  if σ.vol.ppc.isSome then σ else
+  if σ.vol.ppc.isSome || σ.vol.ipc.isSome then σ else
   let d := if σ.vol.pending.isEmpty then σ.dur else { σ.dur with pfile := some σ.vol.pending }
   { σ with dur := d, up := false, vol := {} }
 
@@ -402,7 +411,7 @@ def tick (σ : State) (ans : Ans) : State :=
   | some (.stopSend s) => tickStopSend σ s ans
   | some (.stopDelete s a) => tickStopDelete σ s a
   | some (.stopRemove s a) => tickStopRemove σ s a
-  | some (.intSend s) => tickIntSend σ s ans
+  | some (.intSend _ _ _ _) => σ
   | some (.procSend _ _) => σ
   | some (.procRemove _ _) => σ
   | some (.drainSend s rest) => tickDrainSend σ s rest ans
@@ -420,6 +429,12 @@ def ptick (σ : State) (ans : Ans) : State :=
   | some (.procRemove s rest) => tickProcRemove σ s rest
   | _ => σ
 
+/-- the interim update in flight -/
+def itick (σ : State) (ans : Ans) : State :=
+  match σ.vol.ipc with
+  | some (.intSend s ident i o) => tickIntSend σ s ident i o ans
+  | _ => σ
+
 /-! ## calls: the part of each API function before its first marker -/
 
 inductive Op
@@ -435,6 +450,7 @@ inductive Op
   | crashTorn                          -- crash in the middle of the file write of a persist step
   | tick (ans : Ans)                   -- one micro-step of the API call in progress
   | ptick (ans : Ans)                  -- one micro-step of the processor step in progress
+  | itick (ans : Ans)                  -- the interim update in flight is sent and answered
   deriving Repr
 
 /-- a call can begin only on a running instance with no call in progress -/
@@ -442,6 +458,7 @@ def ready (σ : State) : Bool := σ.up && σ.vol.pc.isNone
 
 def begin (σ : State) (r : Res) : State := { σ with res := r, ord := [] }
 def pbegin (σ : State) (r : Res) : State := { σ with pres := r, pord := [] }
+def ibegin (σ : State) (r : Res) : State := { σ with ires := r }
 
 /-- the processor goroutine exists: Start() has finished the recovery, Stop() has not yet cancelled it -/
 def procAlive : Option Frame → Bool
@@ -467,10 +484,14 @@ def callStop (σ : State) (s cause : Nat) : State :=
       sessions := AMap.insert σ.vol.sessions s { x with stopPending := true, stopCause := cause } } }
       (some (.stopPersist s))
 
+/-- the interim goroutine picks a due session that is not being stopped, fetches its counters and reaches the
+    marker in front of the send -/
 def callInterim (σ : State) (s : Nat) : State :=
   match AMap.lookup σ.vol.sessions s with
-  | none => begin σ .skip
-  | some x => if x.stopPending then begin σ .skip else setPc (begin σ .ok) (some (.intSend s))
+  | none => ibegin σ .skip
+  | some x =>
+    if x.stopPending then ibegin σ .skip
+    else setIpc (ibegin σ .ok) (some (.intSend s x.ident (counters σ s).1 (counters σ s).2))
 
 def callDeq (σ : State) : State :=
   match σ.vol.queue with
@@ -506,6 +527,7 @@ def callRestart (σ : State) (order : List Nat) : State :=
 def step (σ : State) : Op → State
   | .tick ans => tick σ ans
   | .ptick ans => ptick σ ans
+  | .itick ans => itick σ ans
   | .crash => crash σ
   | .crashTorn => crash (tornEffect σ)
   | .ctr s i o => { σ with ctr := AMap.insert σ.ctr s (i, o) }
@@ -518,12 +540,15 @@ def step (σ : State) : Op → State
     if !σ.up || !procAlive σ.vol.pc then { σ with pres := .dead }
     else if σ.vol.ppc.isSome then { σ with pres := .busy }
     else callRetry σ order
+  | .interim s =>
+    if !σ.up || !procAlive σ.vol.pc then { σ with ires := .dead }
+    else if σ.vol.ipc.isSome then { σ with ires := .busy }
+    else callInterim σ s
   | op =>
     if !σ.up then { σ with res := .dead }
     else if σ.vol.pc.isSome then { σ with res := .busy }
     else match op with
       | .start s ident => callStart σ s ident
-      | .interim s => callInterim σ s
       | .stop s cause => callStop σ s cause
       | .shutdown order => callShutdown σ order
       | _ => σ
